@@ -100,7 +100,7 @@ def exact(op, a, scale, in_gas):
                 g = np.asarray(ms.imol['g'].to_array(), float)
                 l = np.asarray(ms.imol['l'].to_array(), float)
                 tot = g + l
-                vf = [cap(g[i] / tot[i] * 1e9) if tot[i] > 0 else 0 for i in range(len(A))]
+                vf = [int(round(g[i] / tot[i] * 1e9)) if tot[i] > 0 else 0 for i in range(len(A))]
                 obs.update(T6=cap(ms.T * 1e6), P6=cap(ms.P / 1000. * 1e6), vf9=vf)
     except Exception as e:
         obs['exc'], obs['msg'] = type(e).__name__, str(e)[:160]
@@ -142,7 +142,9 @@ def measured(family, ideal, comp, kind, u1, u2, k):
                         s.imol['l', ID] = v * f
                     return s
                 vol = [i for i in FAMILIES[family] if comp.get(i, 0) > 0]
-                plain = not (comp.get('N2', 0) or comp.get('Glucose', 0))
+                # vapour-fraction, phase-boundary and iso-fugacity clauses: no non-condensable / non-volatile; with activity coefficients only
+                # within one homologous family (C04's quantifier)
+                plain = not (comp.get('N2', 0) or comp.get('Glucose', 0)) and (ideal or family in ('alcohols', 'hydrocarbons'))
                 chems = [getattr(th.chemicals, i) for i in vol]
                 z = np.array([comp[i] for i in vol], float)
                 zn = z / z.sum()
@@ -181,7 +183,12 @@ def measured(family, ideal, comp, kind, u1, u2, k):
                         a_.vle(T=ms.T - 2e-3, P=spec['P'])
                         b_.vle(T=ms.T + 2e-3, P=spec['P'])
                     Va, Vb = a_.vapor_fraction, b_.vapor_fraction
-                    obs['v_bracketed'] = bool(Va - 1e-9 <= ms.vapor_fraction <= Vb + 1e-9 and abs(ms.vapor_fraction - spec['V']) <= 1e-5)
+                    in_range = 280. <= ms.T <= 450. and 2e4 <= ms.P <= 1e6
+                    # the specification (and what is read back) lies between the equilibrium vapour fractions one solver
+                    # resolution to either side of the returned point; judged inside the ranges C04 names only
+                    obs['v_bracketed'] = bool(not in_range or (Va - 1e-6 <= spec['V'] <= Vb + 1e-6 and Va - 1e-6 <= ms.vapor_fraction <= Vb + 1e-6))
+                    if not obs['v_bracketed']:
+                        obs['msg'] = 'V=%r read=%r lower=%r upper=%r T=%r P=%r' % (spec['V'], ms.vapor_fraction, Va, Vb, ms.T, ms.P)
                 obs['V6'] = cap(ms.vapor_fraction * 1e6)
                 if kind == 'TP' and plain and len(vol) > 1:
                     bp, dp = eq.BubblePoint(chems, th), eq.DewPoint(chems, th)
